@@ -12,7 +12,7 @@ import re
 import vlib
 
 PROOFS = ["MgProof.C02.Arith", "MgProof.C02.Lemmas", "MgProof.C02.LemmasB", "MgProof.C02.LemmasC",
-          "MgProof.C02.LemmasD", "MgProof.C02.LemmasE", "MgProof.C02.LemmasG", "MgProof.C02.Assemble",
+          "MgProof.C02.LemmasD", "MgProof.C02.LemmasE", "MgProof.C02.LemmasG", "MgProof.C02.Assemble", "MgProof.C02.LemmasH",
           "MgProof.C02.Props",
           "MgProof.C03.RingBuffer"]
 GREP = ["MgModel/C02", "MgProof/C02", "MgProof/C03/RingBuffer.lean", "MgModel/Common", "Drv/C02.lean"]
